@@ -124,7 +124,7 @@ Section Paths.
   Notation srbB := (srb blank visit defs).
   Notation chB := (srb_children blank visit defs).
 
-  Definition is_visit (e : event) : Prop := match e with EVisit _ _ _ => True | _ => False end.
+  Definition is_visit (e : event) : Prop := match e with EEnter _ _ _ _ => False | _ => True end.   (* not an enter call *)
 
   (* an enter event for something strictly inside [o], whose items live under path [cp] *)
   Definition inner (cp : path) (o : obj) (e : event) : Prop :=
@@ -176,6 +176,7 @@ Section Paths.
     - rewrite srb_node in E. destruct (t_get m id); [inversion E; subst; tauto|]. cbv zeta in E.
       set (cp := if rt then p else p ++ [ky]) in *.
       destruct (chB cp items [] _ _) as [[items' m1] lg1] eqn:EC. inversion E; subst v m' lg'. clear E.
+      rewrite in_app_iff in He. destruct He as [He|[<-|[]]]; [|right; left; exact I].
       destruct (children_events items IH (wf_items _ _ _ Hw) _ _ _ _ _ _ _ EC e He) as [H|[H|[ck [c [Hin H]]]]].
       + rewrite in_app_iff in H. destruct H as [H|[<-|[]]]; [tauto|]. right. right. left. reflexivity.
       + tauto.
@@ -204,7 +205,7 @@ Lemma reported_in : forall q lg p r, In (p, r) (reported q lg) ->
   exists ep ek es, In (EEnter ep ek r es) lg /\ p = ep ++ [ek].
 Proof.
   intros q lg p r H. unfold reported in H. apply in_flat_map in H as [e [He Hin]].
-  destruct e as [ep ek er es|]; [|inversion Hin].
+  destruct e as [ep ek er es| |]; [|inversion Hin|inversion Hin].
   destruct (q ep ek es); [|inversion Hin]. destruct Hin as [E|[]]. inversion E; subst.
   exists ep, ek, es. split; [assumption|reflexivity].
 Qed.
@@ -239,7 +240,7 @@ Proof.
   intros q rr root. unfold research_x, research.
   assert (H : forall lg, reported_x (fun p k s => Some (q p k s)) rr lg = Ok (reported q lg)).
   { induction lg as [|e r IH]; [reflexivity|]. cbn [reported_x reported flat_map].
-    destruct e as [p k o s|]; [|exact IH]. destruct (q p k s); rewrite IH; reflexivity. }
+    destruct e as [p k o s| |]; [|exact IH|exact IH]. destruct (q p k s); rewrite IH; reflexivity. }
   destruct (remap None true (collect_defs root) root); try reflexivity; rewrite H; reflexivity.
 Qed.
 
